@@ -28,8 +28,8 @@ configure() { # flavour
     asan)
       cmake -S "$REPO" -B "$d" "${COMMON_OPTS[@]}" -DSTIR_OPENMP=OFF \
         -DCMAKE_C_COMPILER=clang -DCMAKE_CXX_COMPILER=clang++ \
-        "-DCMAKE_CXX_FLAGS=-I$V/harness/shim -DUCL_STIR_VERIF -w -fsanitize=fuzzer-no-link,address,undefined -fno-sanitize-recover=undefined -fno-sanitize=null -fno-omit-frame-pointer" \
-        "-DCMAKE_C_FLAGS=-w -fsanitize=fuzzer-no-link,address,undefined -fno-sanitize-recover=undefined -fno-sanitize=null" \
+        "-DCMAKE_CXX_FLAGS=-I$V/harness/shim -DUCL_STIR_VERIF -w -fsanitize=fuzzer-no-link,address,undefined -fno-sanitize-recover=undefined -fno-sanitize=null,function -fno-omit-frame-pointer" \
+        "-DCMAKE_C_FLAGS=-w -fsanitize=fuzzer-no-link,address,undefined -fno-sanitize-recover=undefined -fno-sanitize=null,function" \
         "-DCMAKE_CXX_FLAGS_RELEASE=-O1 -g1" "-DCMAKE_C_FLAGS_RELEASE=-O1 -g1" ;;
     omp)
       cmake -S "$REPO" -B "$d" "${COMMON_OPTS[@]}" -DSTIR_OPENMP=ON \
